@@ -154,3 +154,53 @@ func C09_MultiTransferDest2() {
 	s.Run()
 	admissibleCheck(s, s.Dst, s.In.RecipientAddr, 3*2+1)
 }
+
+func init() {
+	reg("C09_DefaultHandlerTransfer", C09_DefaultHandlerTransfer)
+	reg("C09_DefaultHandlerNFTDest", C09_DefaultHandlerNFTDest)
+	reg("C09_DefaultHandlerMultiDest", C09_DefaultHandlerMultiDest)
+}
+
+// defaultHandlerCheck: a transfer function on which no payability oracle was installed keeps the
+// constructor's default handler, which refuses everything: nothing is credited to a destination
+// unless the transfer is exempt from the payability question; installing a nil oracle is refused
+// and leaves the default in place.
+func defaultHandlerCheck(s *Scn, minArgs int) {
+	if a, ok := s.Fn.(vmcommon.AcceptPayableHandler); ok {
+		verif.Assert("nil-oracle-refused", a.SetPayableHandler(nil) != nil)
+	} else {
+		verif.Assert("accepts-payable-handler", false)
+	}
+	s.Run()
+	ok := s.Err == nil
+	exempt := verif.Or(
+		len(s.In.Arguments) > minArgs,
+		s.In.CallType == vmcommon.AsynchronousCallBack,
+		s.In.CallType == vmcommon.ESDTTransferAndExecute,
+		verif.BytesEq(s.In.CallerAddr, vmcommon.ESDTSCAddress))
+	verif.Assert("oracle-never-consulted", len(s.W.Payable.Queries) == 0)
+	if ok && s.Dst != nil && s.Dst != s.Snd {
+		verif.Assert("default-handler-refuses-everything", verif.Or(!credited(s, s.Dst), exempt))
+		verif.Reach("credited-exempt", verif.And(credited(s, s.Dst), exempt))
+	}
+	verif.Reach("rejected", !ok)
+	verif.ObserveBool("ok", ok)
+}
+
+func C09_DefaultHandlerTransfer() {
+	o := payOpt
+	o.DefaultPayable = true
+	defaultHandlerCheck(scnTransfer(o), vmcommon.MinLenArgumentsESDTTransfer)
+}
+
+func C09_DefaultHandlerNFTDest() {
+	o := payOpt
+	o.DefaultPayable, o.Side = true, 2
+	defaultHandlerCheck(scnNFTTransfer(o), vmcommon.MinLenArgumentsESDTNFTTransfer)
+}
+
+func C09_DefaultHandlerMultiDest() {
+	o := payOpt
+	o.DefaultPayable, o.Side, o.MultiK = true, 2, 1
+	defaultHandlerCheck(scnMultiTransfer(o), 3*1+1)
+}
